@@ -41,7 +41,7 @@ func main() { Main("c14", runC14) }
 // ---------- feature names ----------
 
 var featByName = map[string]compat.JSFeature{} // Go identifier -> bit
-var keyByName = map[string]string{}           // Go identifier -> "supported" key
+var keyByName = map[string]string{}            // Go identifier -> "supported" key
 var allNames []string
 
 func camel(k string) string {
@@ -141,6 +141,8 @@ type cfg struct {
 	Bundle    bool            `json:"bundle,omitempty"`
 	Loader    string          `json:"loader,omitempty"`
 	KeepNames bool            `json:"keepNames,omitempty"`
+	JSX       string          `json:"jsx,omitempty"`      // "", "automatic", "automatic-dev", "preserve" (loader jsx/tsx)
+	Tsconfig  string          `json:"tsconfig,omitempty"` // TsconfigRaw
 	year      int
 	target    api.Target
 	engines   []api.Engine
@@ -184,10 +186,34 @@ func (c *cfg) format() api.Format {
 }
 
 func (c *cfg) loader() api.Loader {
-	if c.Loader == "ts" {
+	switch c.Loader {
+	case "ts":
 		return api.LoaderTS
+	case "jsx":
+		return api.LoaderJSX
+	case "tsx":
+		return api.LoaderTSX
 	}
 	return api.LoaderJS
+}
+
+func (c *cfg) jsx() (api.JSX, bool) {
+	switch c.JSX {
+	case "automatic":
+		return api.JSXAutomatic, false
+	case "automatic-dev":
+		return api.JSXAutomatic, true
+	case "preserve":
+		return api.JSXPreserve, false
+	}
+	return api.JSXTransform, false
+}
+
+func (c *cfg) ext() string {
+	if c.Loader != "" {
+		return "." + c.Loader
+	}
+	return ".js"
 }
 
 // what esbuild itself computes for this configuration (through the hooks)
@@ -251,7 +277,9 @@ func msgTexts(ms []api.Message) []string {
 }
 
 func runTransform(src string, c *cfg) result {
+	jsx, dev := c.jsx()
 	r := api.Transform(src, api.TransformOptions{
+		JSX: jsx, JSXDev: dev, TsconfigRaw: c.Tsconfig, Sourcefile: "probe" + c.ext(),
 		Target: c.target, Engines: c.engines, Supported: c.Supported, Format: c.format(), Loader: c.loader(),
 		MinifySyntax: c.Minify, MinifyWhitespace: c.Minify, MinifyIdentifiers: c.Minify, KeepNames: c.KeepNames,
 		LogLevel: api.LogLevelSilent, Platform: api.PlatformBrowser,
@@ -263,10 +291,7 @@ func runTransform(src string, c *cfg) result {
 // require()d (forces __esm), a CommonJS module (forces __commonJS/__toESM), a
 // re-export (forces __reExport/__export) and a dynamic import.
 func runBuild(dir string, src string, c *cfg) result {
-	ext := ".js"
-	if c.Loader == "ts" {
-		ext = ".ts"
-	}
+	ext := c.ext()
 	files := map[string]string{
 		"entry" + ext: "import { probe } from './probe" + ext + "'\nimport cj from './cj.js'\nexport * from './re.js'\nexport { probe, cj }\n" +
 			"export const lazy = () => import('./dyn.js')\nexport const viaRequire = () => require('./esm2.js')\n",
@@ -281,7 +306,9 @@ func runBuild(dir string, src string, c *cfg) result {
 			panic(err)
 		}
 	}
+	jsx, dev := c.jsx()
 	opts := api.BuildOptions{
+		JSX: jsx, JSXDev: dev, TsconfigRaw: c.Tsconfig, External: []string{"react", "react/*"},
 		EntryPoints: []string{"entry" + ext}, AbsWorkingDir: dir, Bundle: true, Write: false, Outfile: "out.js",
 		Target: c.target, Engines: c.engines, Supported: c.Supported, Format: c.format(),
 		MinifySyntax: c.Minify, MinifyWhitespace: c.Minify, MinifyIdentifiers: c.Minify, KeepNames: c.KeepNames,
@@ -398,7 +425,28 @@ func scenarioFor(f string, c *cfg, notes map[string]bool, code string) string {
 
 // checkOutput evaluates P1 and P2 on a successful result.
 func checkOutput(st *Stats, kind string, src string, c *cfg, r result) verdict {
-	det, notes := DetectWithNotes(r.code)
+	preserve := c.JSX == "preserve"
+	detText := r.code
+	if preserve {
+		// the output still holds JSX elements: look at the plain JavaScript esbuild
+		// itself makes of them for ESNext (a spread attribute then shows as an object
+		// spread, which is an artefact of this view and ignored below)
+		cj := cfg{Loader: "jsx"}
+		cj.setTarget("esnext")
+		if x := runTransform(r.code, &cj); x.ok {
+			detText = x.code
+		}
+	}
+	det, notes := DetectWithNotes(detText)
+	if preserve {
+		var d2 []string
+		for _, f := range det {
+			if f != "ObjectRestSpread" {
+				d2 = append(d2, f)
+			}
+		}
+		det = d2
+	}
 	v := verdict{detected: det}
 	uns := c.predicateUnsupported()
 	for _, f := range v.detected {
@@ -426,7 +474,10 @@ func checkOutput(st *Stats, kind string, src string, c *cfg, r result) verdict {
 		return v
 	}
 	c2 := *c
-	c2.Minify, c2.Bundle, c2.Format, c2.Loader, c2.KeepNames = false, false, "", "", false
+	c2.Minify, c2.Bundle, c2.Format, c2.Loader, c2.KeepNames, c2.JSX, c2.Tsconfig = false, false, "", "", false, "", ""
+	if preserve {
+		c2.Loader, c2.JSX = "jsx", "preserve"
+	}
 	a := runTransform(r.code, &c2)
 	c3 := cfg{}
 	c3.setTarget("esnext")
@@ -438,6 +489,9 @@ func checkOutput(st *Stats, kind string, src string, c *cfg, r result) verdict {
 	}
 	if c.goOptions().UnsupportedJSFeatures.Has(compat.FunctionOrClassPropertyAccess) {
 		c3.Supported["function-or-class-property-access"] = false // parenthesises (class{}).p, a printer choice
+	}
+	if preserve {
+		c3.Loader, c3.JSX = "jsx", "preserve"
 	}
 	b := runTransform(r.code, &c3)
 	if b.ok {
@@ -650,9 +704,9 @@ func tableCases(r *Rng, st *Stats, cf *CoqFile, n int) {
 }
 
 var engineVersionPool = map[api.EngineName][]string{
-	api.EngineChrome: {"49", "51", "55", "60", "63", "67", "73", "79", "80", "84", "85", "90", "91", "94", "120"},
-	api.EngineNode:   {"6", "7.6", "8", "8.10", "10", "10.4", "12", "12.20", "13", "13.2", "14", "14.6", "14.18", "15", "16", "16.14", "18", "18.20", "20", "22", "25"},
-	api.EngineSafari: {"10", "10.1", "11", "11.1", "12", "13", "13.1", "14", "14.1", "15", "16", "16.4", "17"},
+	api.EngineChrome:  {"49", "51", "55", "60", "63", "67", "73", "79", "80", "84", "85", "90", "91", "94", "120"},
+	api.EngineNode:    {"6", "7.6", "8", "8.10", "10", "10.4", "12", "12.20", "13", "13.2", "14", "14.6", "14.18", "15", "16", "16.14", "18", "18.20", "20", "22", "25"},
+	api.EngineSafari:  {"10", "10.1", "11", "11.1", "12", "13", "13.1", "14", "14.1", "15", "16", "16.4", "17"},
 	api.EngineFirefox: {"45", "52", "53", "55", "60", "67", "72", "74", "78", "79", "90", "93", "120"},
 	api.EngineEdge:    {"13", "15", "16", "18", "79", "80", "85", "91", "120"},
 	api.EngineIOS:     {"10", "11", "12", "13", "13.4", "14", "14.5", "15", "16.4"},
